@@ -7,7 +7,7 @@ from typing import Any, Dict, List, Optional, Set, Tuple
 from ..core import AnalysisError, Report
 from ..names import fixed_text_of_fstring, identifier_alphabet, label_table_writers
 from ..pysubst import block_outcomes
-from ..pyfacts import Repo, cc, cn, normalize_tuple_unpack, calls, dotted, norm, walk_no_nested
+from ..pyfacts import Repo, cc, cn, normalize_tuple_unpack, read_through_locals, calls, dotted, norm, walk_no_nested
 
 PRE = 'flipjump/assembler/preprocessor.py'
 ASM = 'flipjump/assembler/assembler.py'
@@ -81,6 +81,7 @@ def rule_same_table(rep: Report, repo: Repo) -> None:
     rep.check(ok and not reassigned, 'C16.SAME-TABLE', 'assemble', f'resolve_macros -> {tgt}; labels_resolve({[norm(a) for a in lr[0].args[:2]] if lr else None}); '
               f'save(..., {norm(sv[0].args[1]) if sv else None}) after resolution', f'{ASM}:{asm.lineno}')
     gr = repo.func(PRE, 'PreprocessorData.get_result_ops_and_labels')
+    gr = read_through_locals(gr)           # locals that merely name the two members read as the members
     rets = [norm(r.value) for r in ast.walk(gr) if isinstance(r, ast.Return)]
     bd = repo.func(ASM, 'BinaryData.__init__')
     kept = any(norm(s) == 'self.labels = labels' for s in bd.body)
